@@ -218,6 +218,11 @@ def scenarios(tier: str) -> List[Dict[str, Any]]:
                     lv = leave + ([ev_send("P", fr(tc, T1, b"pair", src_mod_id=IDS["P"]))] if with_pub else [])
                     out.append(dict(tc=tc, grace=grace, flip=flip, pre=pre, leave=lv, orders=True, leavers=[("D", p1), ("E", p2)],
                                     label=f"pair/{p1}:{w1}+{p2}:{w2}{'+pub' if with_pub else ''}", then_fin=fins))
+    # the leaver itself is not writable in the round in which its departure is found (it had stopped reading, then left);
+    # single leavers, every way of leaving except the byte-offset sweeps
+    for sc in list(out):
+        if len(sc["leavers"]) == 1 and sc["leavers"][0][0] == "D" and "nonwritable" not in sc and "[:" not in sc["label"] and not sc.get("twin"):
+            out.append(dict(sc, nonwritable=["D"], label=sc["label"] + "/leaver-not-writable"))
     return out
 
 
@@ -297,8 +302,59 @@ def _own(probs):
     return any(p["prop"] in ("C07", "C03", "C01") or (p["prop"] == "C19" and p.get("slot") in ("G", "S", "P", "M")) for p in probs)
 
 
+def full_pool(args) -> Dict[str, Any]:
+    """every dynamic id is held; one holder leaves (the first, a middle one, the last but one, the last admitted); the very next
+    request for a dynamic id is acknowledged with an id nobody holds"""
+    _tag, tc, which, how = args
+    mmx.fresh_gc()
+    n = P.MAX_MODULES - P.DYN_MOD_ID_START
+    env = lock.Env(timecode=tc, fin_grace=0, hids={"M": 1, "S": 2, "P": 3})
+    probs: List[Dict[str, Any]] = []
+    try:
+        for ev in setup_events(tc):
+            env.apply(ev)
+        held = {}
+        for i in range(n):
+            s = f"H{i}"
+            env.apply(["conn", s])
+            env.apply(ev_send(s, fr(tc, P.MT_CONNECT_V2, P.p_connect_v2(0, 0, 0, 0, 9, b""))))
+            env.settle()
+            acks = [k for k in env.received[s] if k[0] == "ack"]
+            if len(acks) != 1:
+                probs.append({"prop": "C07", "kind": "pool-not-filled", "at": i})
+                break
+            held[s] = acks[0][1]
+        if not probs and not env.dead:
+            leaver = {"first": "H0", "middle": f"H{n // 2}", "last-but-one": f"H{n - 2}", "last": f"H{n - 1}"}[which]
+            freed = held.pop(leaver)
+            if how == "DISCONNECT":
+                env.apply(ev_send(leaver, fr(tc, P.MT_DISCONNECT, src_mod_id=freed)))
+                env.settle()
+                env.apply(["fin", leaver])
+            else:
+                env.apply([how, leaver])
+            env.settle()
+            for k in range(2):
+                s = f"N{k}"
+                env.apply(["conn", s])
+                env.apply(ev_send(s, fr(tc, P.MT_CONNECT_V2, P.p_connect_v2(0, 0, 0, 0, 9, b""))))
+                env.settle()
+                acks = [a for a in env.received[s] if a[0] == "ack"]
+                if k == 0:
+                    if len(acks) != 1 or acks[0][1] in held.values() or not (P.DYN_MOD_ID_START <= acks[0][1] < P.MAX_MODULES):
+                        probs.append({"prop": "C07", "kind": "dynamic-id-not-reusable", "leaver": which, "freed": freed, "acks": [list(a) for a in acks]})
+                        break
+                    held[s] = acks[0][1]
+        probs += [dict(p) for p in env.problems if p["prop"] in ("C07", "C03", "C19", "C06")]
+    finally:
+        env.close()
+    return {"problems": probs, "rounds": env.rounds}
+
+
 def dynamic_churn(args) -> Dict[str, Any]:
     """more dynamic clients come and go (in every way of leaving) than there are dynamic ids: every connect must be acknowledged"""
+    if args[0] == "pool":
+        return full_pool(args)
     tc, flip, cycles = args
     mmx.fresh_gc()
     env = lock.Env(timecode=tc, fin_grace=0, hids={"M": 1, "S": 2, "P": 3, "D": 5 if flip else 4, "E": 4 if flip else 5})
@@ -479,6 +535,8 @@ def run(tier: str) -> int:
     chunks = core.chunks(core.shuffled(scs, "c07"), 12)
     res = core.pmap(run_chunk, chunks)
     churn_args = [(False, False, 104), (True, True, 104)] if tier == "quick" else [(False, False, 230), (True, True, 230), (False, True, 104)]
+    churn_args += [("pool", tc_, which, how) for tc_ in ((False,) if tier == "quick" else (False, True)) for which in ("first", "middle", "last-but-one", "last")
+                   for how in ("DISCONNECT", "fin", "rst")]
     churn = core.pmap(dynamic_churn, churn_args)
     acs = async_cases(tier)
     achunks = core.chunks(acs, 24)
